@@ -10,6 +10,7 @@ use bourse_de::{Env, MarketEnv};
 use rand::RngCore;
 use rand_xoshiro::rand_core::SeedableRng;
 use rand_xoshiro::Xoroshiro128StarStar;
+pub type Gen = ProbeRng;
 use serde_json::json;
 use std::cell::RefCell;
 use std::rc::Rc;
@@ -23,6 +24,104 @@ pub struct Trace {
     pub log: Vec<LogEntry>,
     pub orders: Vec<Vec<OrderRec>>,
     pub next_draw: u64,
+}
+
+/// The generator handed to the sets. Kind 0 is the library runner's Xoroshiro128**; kind 1 answers
+/// `next_u32`, `next_u64` and `fill_bytes` from three independent streams, so a member that is handed
+/// anything but the caller's generator itself (a wrapper that derives one width from another, a
+/// copy, a re-seeded generator) draws different values.
+pub struct ProbeRng {
+    kind: u8,
+    x: Xoroshiro128StarStar,
+    s32: u64,
+    s64: u64,
+    sfill: u64,
+}
+fn splitmix(z: &mut u64) -> u64 {
+    *z = z.wrapping_add(0x9E37_79B9_7F4A_7C15);
+    let mut x = *z;
+    x = (x ^ (x >> 30)).wrapping_mul(0xBF58_476D_1CE4_E5B9);
+    x = (x ^ (x >> 27)).wrapping_mul(0x94D0_49BB_1331_11EB);
+    x ^ (x >> 31)
+}
+impl ProbeRng {
+    pub fn new(kind: u8, seed: u64) -> Self {
+        ProbeRng { kind, x: Xoroshiro128StarStar::seed_from_u64(seed), s32: seed ^ 0x1111, s64: seed ^ 0x2222_0000, sfill: seed ^ 0x3333_0000_0000 }
+    }
+    /// the next answer of every stream (the state a later user of the generator would see)
+    pub fn fingerprint(&mut self) -> u64 {
+        let mut b = [0u8; 8];
+        self.fill_bytes(&mut b);
+        crate::util::fnv_of(&(self.next_u32(), self.next_u64(), b))
+    }
+}
+impl RngCore for ProbeRng {
+    fn next_u32(&mut self) -> u32 {
+        if self.kind == 0 {
+            self.x.next_u32()
+        } else {
+            (splitmix(&mut self.s32) >> 7) as u32
+        }
+    }
+    fn next_u64(&mut self) -> u64 {
+        if self.kind == 0 {
+            self.x.next_u64()
+        } else {
+            splitmix(&mut self.s64)
+        }
+    }
+    fn fill_bytes(&mut self, dest: &mut [u8]) {
+        if self.kind == 0 {
+            self.x.fill_bytes(dest)
+        } else {
+            for d in dest.iter_mut() {
+                *d = (splitmix(&mut self.sfill) >> 11) as u8;
+            }
+        }
+    }
+    fn try_fill_bytes(&mut self, dest: &mut [u8]) -> Result<(), rand::Error> {
+        self.fill_bytes(dest);
+        Ok(())
+    }
+}
+
+thread_local! {
+    /// log of the zero-sized probes (they have no field to keep a handle in); drained into the trace
+    static ZLOG: RefCell<Option<Log>> = const { RefCell::new(None) };
+}
+fn zlog_push(e: LogEntry) {
+    ZLOG.with(|z| {
+        if let Some(l) = z.borrow().as_ref() {
+            l.borrow_mut().push(e);
+        }
+    });
+}
+fn zlog_set(l: Option<Log>) {
+    ZLOG.with(|z| *z.borrow_mut() = l);
+}
+/// A member without any run-time state (a unit struct): it is updated like every other member.
+pub struct ProbeZ;
+pub struct MProbeZ;
+pub const ZTAG: u32 = 777;
+impl Agent for ProbeZ {
+    fn update<R: RngCore>(&mut self, env: &mut Env, rng: &mut R) {
+        let fp = fp_env(env);
+        let mut b = [0u8; 2];
+        rng.fill_bytes(&mut b);
+        let d = u16::from_le_bytes(b) as u64;
+        zlog_push((ZTAG, fp, d));
+        env.place_order(Side::Bid, 2, ZTAG, Some(1 + (d % 1000) as u32)).unwrap();
+    }
+}
+impl MarketAgent for MProbeZ {
+    fn update<R: RngCore, const M: usize, const N: usize>(&mut self, env: &mut MarketEnv<M, N>, rng: &mut R) {
+        let fp = fp_any(env);
+        let mut b = [0u8; 2];
+        rng.fill_bytes(&mut b);
+        let d = u16::from_le_bytes(b) as u64;
+        zlog_push((ZTAG, fp, d));
+        env.place_order((d % M as u64) as usize, Side::Bid, 2, ZTAG, Some(1 + (d % 1000) as u32)).unwrap();
+    }
 }
 
 fn fp_env(e: &Env) -> u64 {
@@ -119,7 +218,9 @@ pub fn configs(thorough: bool) -> Vec<u64> {
         for pre in 0..3u64 {
             for pat in 0..2u64 {
                 let _ = thorough; // (cheap: every configuration runs in both tiers)
-                v.push(ss | pre << 2 | pat << 4);
+                for gen in 0..2u64 {
+                    v.push(ss | pre << 2 | pat << 4 | gen << 5);
+                }
             }
         }
     }
@@ -129,19 +230,31 @@ fn cfg_of(seed: u64) -> (u64, usize, bool, u64) {
     let c = seed >> 32;
     ([1000u64, 1, 2, 8][(c & 3) as usize], [0usize, 1, 3][((c >> 2) & 3) as usize % 3], (c >> 4) & 1 == 1, seed & 0xFFFF_FFFF)
 }
+fn gen_kind(seed: u64) -> u8 {
+    ((seed >> 37) & 1) as u8
+}
 pub fn cfg_text(seed: u64) -> String {
     let (ss, pre, twice, s) = cfg_of(seed);
-    format!("seed {} step size {} instructions waiting before each update {} pattern {}", s, ss, pre, if twice { "update,update,step,update" } else { "update,step,update" })
+    format!(
+        "seed {} step size {} instructions waiting before each update {} pattern {} generator {}",
+        s,
+        ss,
+        pre,
+        if twice { "update,update,step,update" } else { "update,step,update" },
+        if gen_kind(seed) == 0 { "Xoroshiro128**" } else { "independent streams per draw width" }
+    )
 }
 
 #[allow(non_snake_case)]
-fn trace_S<T>(seed: u64, make: fn(&Log) -> T, upd: fn(&mut T, &mut Env, &mut Xoroshiro128StarStar)) -> Trace {
+fn trace_S<T>(seed: u64, make: fn(&Log) -> T, upd: fn(&mut T, &mut Env, &mut Gen)) -> Trace {
+    let kind = gen_kind(seed);
     let (ss, pre, twice, seed) = cfg_of(seed);
     let log: Log = Rc::new(RefCell::new(Vec::new()));
+    zlog_set(Some(log.clone()));
     let mut a = make(&log);
     let mut env = Env::new(0, 1, ss, true);
-    let mut rng = Xoroshiro128StarStar::seed_from_u64(seed);
-    let mut go = |a: &mut T, env: &mut Env, rng: &mut Xoroshiro128StarStar| {
+    let mut rng = ProbeRng::new(kind, seed);
+    let mut go = |a: &mut T, env: &mut Env, rng: &mut Gen| {
         for k in 0..pre {
             env.place_order(Side::Bid, 7, 9000 + k as u32, Some(3)).unwrap();
         }
@@ -156,17 +269,20 @@ fn trace_S<T>(seed: u64, make: fn(&Log) -> T, upd: fn(&mut T, &mut Env, &mut Xor
     let orders = vec![env.get_orders().into_iter().map(OrderRec::of).collect()];
     let l = log.borrow().clone();
     let _ = fp_menv;
-    Trace { log: l, orders, next_draw: rng.next_u64() }
+    zlog_set(None);
+    Trace { log: l, orders, next_draw: rng.fingerprint() }
 }
 
 #[allow(non_snake_case)]
-fn trace_M<T>(seed: u64, make: fn(&Log) -> T, upd: fn(&mut T, &mut MarketEnv<2, 3>, &mut Xoroshiro128StarStar)) -> Trace {
+fn trace_M<T>(seed: u64, make: fn(&Log) -> T, upd: fn(&mut T, &mut MarketEnv<2, 3>, &mut Gen)) -> Trace {
     let log: Log = Rc::new(RefCell::new(Vec::new()));
+    zlog_set(Some(log.clone()));
     let mut a = make(&log);
+    let kind = gen_kind(seed);
     let (ss, pre, twice, seed) = cfg_of(seed);
     let mut env: MarketEnv<2, 3> = MarketEnv::new(0, [1, 1], ss, true);
-    let mut rng = Xoroshiro128StarStar::seed_from_u64(seed);
-    let mut go = |a: &mut T, env: &mut MarketEnv<2, 3>, rng: &mut Xoroshiro128StarStar| {
+    let mut rng = ProbeRng::new(kind, seed);
+    let mut go = |a: &mut T, env: &mut MarketEnv<2, 3>, rng: &mut Gen| {
         for k in 0..pre {
             env.place_order(k % 2, Side::Bid, 7, 9000 + k as u32, Some(3)).unwrap();
         }
@@ -180,7 +296,8 @@ fn trace_M<T>(seed: u64, make: fn(&Log) -> T, upd: fn(&mut T, &mut MarketEnv<2, 
     go(&mut a, &mut env, &mut rng);
     let orders = (0..2).map(|x| env.get_orders(x).into_iter().map(OrderRec::of).collect()).collect();
     let l = log.borrow().clone();
-    Trace { log: l, orders, next_draw: rng.next_u64() }
+    zlog_set(None);
+    Trace { log: l, orders, next_draw: rng.fingerprint() }
 }
 
 include!(concat!(env!("OUT_DIR"), "/c20_gen.rs"));
@@ -228,7 +345,7 @@ pub fn c20(tier: &str) -> i32 {
             };
             fails.push((
                 format!("derive/{}/{}", mac, clause),
-                format!("struct with field kinds {} (A/B probe agents, N/T/F nested derived sets of 2/3/5 members), {}: derived update logged tags {:?}, hand-written calls {:?}", word, cfg_text(seed), tags_d, tags_h),
+                format!("struct with field kinds {} (A/B probe agents, Z zero-sized unit-struct agent, N/T/F nested derived sets of 2/3/5 members, Y nested set of two zero-sized agents), {}: derived update logged tags {:?}, hand-written calls {:?}", word, cfg_text(seed), tags_d, tags_h),
                 json!({"macro": mac, "field_kinds": word, "config": cfg_text(seed)}),
             ));
         }
@@ -241,7 +358,7 @@ pub fn c20(tier: &str) -> i32 {
     out.set("programs", json!(2 * N_SHAPES));
     out.set("seeds", json!(base_seeds));
     out.set("environment_configurations", json!(cfgs.iter().map(|c| cfg_text(c << 32)).collect::<Vec<_>>()));
-    out.set("rule", json!("every word of length 1..4 over field kinds {A, B, N(ested derived set)} plus 14 shapes of 5..8 fields and 17 shapes holding nested sets of three and five members (larger than the set they sit in), and every word of length 1..3 plus two long shapes re-declared with six syntactic decorations (field attributes incl. #[rustfmt::skip] / #[cfg(all())] / doc comments, struct attributes around the derive, mixed visibilities, type paths and parenthesised types, raw identifiers, a macro_rules! template passing the member types as `ty` fragments), for both derive macros; run under several environment configurations (step sizes 1000, 1, 2, 8; 0, 1 or 3 instructions already waiting in the queue before each update; update-step-update and update-update-step-update); log of (tag, environment fingerprint, draw), final orders and next generator draw compared with the flattened hand-written calls"));
+    out.set("rule", json!("every word of length 1..4 over field kinds {A, B, N(ested derived set)} plus 14 shapes of 5..8 fields and 17 shapes holding nested sets of three and five members (larger than the set they sit in), and every word of length 1..3 plus two long shapes re-declared with six syntactic decorations (field attributes incl. #[rustfmt::skip] / #[cfg(all())] / doc comments, struct attributes around the derive, mixed visibilities, type paths and parenthesised types, raw identifiers, a macro_rules! template passing the member types as `ty` fragments), for both derive macros; shapes holding zero-sized members (unit structs) and a nested set made only of such members; run with two generators (the Xoroshiro128** of the library runner and one answering next_u32 / next_u64 / fill_bytes from three independent streams, the probes drawing through all three) under several environment configurations (step sizes 1000, 1, 2, 8; 0, 1 or 3 instructions already waiting in the queue before each update; update-step-update and update-update-step-update); log of (tag, environment fingerprint, draw), final orders and next generator draw compared with the flattened hand-written calls"));
     for s in samples {
         out.push("samples", s);
     }
